@@ -3,3 +3,5 @@ import RasnModel.Props.C06
 import RasnModel.Driver.C06
 import RasnModel.Props.C14
 import RasnModel.Driver.C14
+import RasnModel.Props.C16
+import RasnModel.Driver.C16
